@@ -12,7 +12,8 @@ Next ==
   /\ stage' = stage + 1
   /\ CASE stage < 4 -> \E e \in 0..8 : sc' = [sc EXCEPT !.fx = Append(@, e)]
        [] stage = 4 -> \E r1, r2 \in {128, 256, 333} : sc' = sc @@ [rates |-> <<r1, r2>>]
-       [] stage = 5 -> \E l1, l2 \in BOOLEAN, p1, p2 \in {-4, 0, 1} : sc' = sc @@ [loops |-> <<l1, l2>>, pans |-> <<p1, p2>>]
+       [] stage = 5 -> \E l1, l2, g1, g2 \in BOOLEAN, p1, p2 \in {-4, 0, 1, 2, 3} :      \* (pans: quarters; 2, 3 = 0.3, -0.7)
+                         sc' = sc @@ [loops |-> <<l1, l2>>, pans |-> <<p1, p2>>, gaps |-> <<g1, g2>>]
        [] stage >= 6 /\ stage < 6 + NCfg -> \E b \in Bsz, p \in Parts : sc' = [sc EXCEPT !.cfgs = Append(@, [b |-> b, part |-> p])]
        [] OTHER -> FALSE
 Spec == Init /\ [][Next]_<<sc, stage>>
